@@ -222,3 +222,21 @@ package utils
 //@   requires forall i int :: 0 <= i && i < len(data) ==> 0 <= data[i] && data[i] < rs.gf.Size
 //@   ensures fresh(result) && len(result) == eccCount
 //@   ensures forall i int :: 0 <= i && i < eccCount ==> 0 <= result[i] && result[i] < rs.gf.Size
+
+// ---------------------------------------------------------------- IterateBytes (C18, channel view)
+// The goroutine started by IterateBytes sends exactly the bytes GetBytes returns, in order, and
+// then closes the channel. (Proof-mode channel model: ghost fields sent / nsent / closed; the
+// caller must not modify the list while the goroutine runs.)
+//@ func (*BitList).IterateBytes$1
+//@   requires inv(bl) && res != nil && res.nsent == 0 && !res.closed
+//@   modifies res.sent, res.nsent, res.closed
+//@   ensures res.closed && res.nsent == (bl.count + 7) / 8
+//@   ensures forall a int, k int :: 0 <= a && a < (bl.count + 7) / 8 && 0 <= k && k < 8 ==> (((res.sent[a] >> (7-k)) & 1) == 1) == bl.model[8*a+k]
+//@   loop 1 invariant res.nsent == 4*i + (24 - shift)/8 && c == bl.count - 8*res.nsent && !res.closed
+//@   loop 1 invariant 0 <= i && (shift == 24 || shift == 16 || shift == 8 || shift == 0) && res.nsent <= (bl.count + 7) / 8
+//@   loop 1 invariant forall a int, k int :: 0 <= a && a < res.nsent && 0 <= k && k < 8 ==> (((res.sent[a] >> (7-k)) & 1) == 1) == bl.model[8*a+k]
+//@   loop 1 decreases c + 8
+
+//@ func (*BitList).IterateBytes
+//@   requires inv(bl)
+//@   ensures result != nil && fresh(result)
